@@ -369,7 +369,17 @@ func loadChunk(l *Lexer, recordLen uint64) error {
 		return fmt.Errorf("failed to read compression length: %w", err)
 	}
 
-	// read compression and records length into buffer
+	// read compression and records length into buffer; the scratch buffer only fits
+	// short compression names, so grow it when the (untrusted) length field says so
+	if bufLen := uint64(compressionLen) + 8; bufLen > uint64(len(l.buf)) {
+		if bufLen > recordLen {
+			return fmt.Errorf("chunk compression length %d exceeds chunk record length %d", compressionLen, recordLen)
+		}
+		l.buf, err = makeSafe(bufLen)
+		if err != nil {
+			return fmt.Errorf("failed to allocate buffer for chunk compression: %w", err)
+		}
+	}
 	thisReadLength, err := io.ReadFull(l.reader, l.buf[:compressionLen+8])
 	readLength += thisReadLength
 	if errors.Is(err, io.ErrUnexpectedEOF) || errors.Is(err, io.EOF) {
